@@ -322,6 +322,10 @@ def _specs(tier):
             if tier != "thorough" and n % 6:
                 continue
             out.append(("cascade %s %s" % (combo, ro), cascade.build_yaml(combo, ro)))
+    # flattening with splits underneath, partial holders of flattened ranks, outputs whose flattened ranks are not
+    # contiguous / not in flattening order: every level-respecting loop order
+    from props import hoist_family
+    out += hoist_family.specs(tier)
     return out
 
 
@@ -355,7 +359,8 @@ def bounded(uni, tier, seed):
             if len(fails) > 4:
                 break
     return {"evaluations": ev, "distinct_nontrivial": len(distinct), "failures": fails, "samples": samples,
-            "rule": "statement trees of real compilations (integration specs, the C19 family, 2-Einsum cascades): a "
+            "rule": "statement trees of real compilations (integration specs, the C19 family, 2-Einsum cascades, the "
+                    "placement family props/hoist_family.py): a "
                     "tensor variable <Name>_<Ranks> is only read, and finally left, while the rank ids its object got "
                     "from Tensor(...)/fromFiber/swizzleRanks/setRankIds spell <Ranks>; setRankIds never reaches a "
                     "user-supplied object; every Einsum's result is bound to <Output>_<declared or rank-order ranks> "
